@@ -2,6 +2,7 @@ package main
 
 import (
 	"bytes"
+	"crypto/sha256"
 	"encoding/binary"
 	"encoding/hex"
 	"encoding/json"
@@ -77,6 +78,23 @@ func (s *Sim) scanStore() []kvPair {
 		out = append(out, kvPair{append([]byte{}, it.Key()...), append([]byte{}, it.Value()...)})
 	}
 	return out
+}
+
+// storeDigest is the SHA-256 of every raw key/value pair of the service store (length-prefixed, in store order): the
+// decoded state lines do not carry every stored byte (texts such as a response's result message are reduced to their
+// kind), the digest does — "byte-identical module state" of C20 is decided on it.
+func (s *Sim) storeDigest() string {
+	h := sha256.New()
+	var n [8]byte
+	for _, kv := range s.scanStore() {
+		binary.BigEndian.PutUint64(n[:], uint64(len(kv.key)))
+		h.Write(n[:])
+		h.Write(kv.key)
+		binary.BigEndian.PutUint64(n[:], uint64(len(kv.value)))
+		h.Write(n[:])
+		h.Write(kv.value)
+	}
+	return hex.EncodeToString(h.Sum(nil))
 }
 
 // decodeKV renders one store entry; whatever does not decode becomes a garbage line.
